@@ -1026,6 +1026,18 @@ def gen_edit(rng, ws, kinds=None):
         d = rng.choice(order[:idx])
         if d in rdeps(ws, l):
             return None
+        # the index order is not an invariant of every family (samehash adds edges from a low index to the output-less g-targets):
+        # never add an edge that closes a cycle (grog rejects such a graph before it runs anything)
+        seen, stack = set(), [d]
+        while stack:
+            x = stack.pop()
+            for y in ws["targets"].get(x, {}).get("deps", []):
+                while y in ws["aliases"]:
+                    y = ws["aliases"][y]
+                if y not in seen:
+                    seen.add(y); stack.append(y)
+        if l in seen:
+            return None
         if rng.random() < 0.4:
             al = lab(ws["targets"][d]["pkg"], "alx%d_%d" % (order.index(d), idx))
             ws["aliases"][al] = d
